@@ -105,6 +105,40 @@ type multiAnchors struct {
 	errs      []string
 }
 
+// wrapsSyncMap: t is a struct of the package that holds a sync.Map (a typed wrapper around the shard map).
+func wrapsSyncMap(t types.Type) bool {
+	n := core.NamedOf(t)
+	if n == nil || n.Obj().Pkg() == nil || n.Obj().Pkg().Path() != core.CBPPath {
+		return false
+	}
+	st, ok := n.Underlying().(*types.Struct)
+	if !ok {
+		return false
+	}
+	for i := 0; i < st.NumFields(); i++ {
+		if core.TypePkgPath(st.Field(i).Type()) == "sync" && core.TypeName(st.Field(i).Type()) == "Map" {
+			return true
+		}
+	}
+	return false
+}
+
+// isSyncMapOp: cl calls (*sync.Map).<name>, or a method of a wrapper type (wrapsSyncMap) that does so on every path.
+func isSyncMapOp(cl *ssa.Call, name string) bool {
+	if core.IsMethodOf(core.CalleeObj(cl), "sync", "Map", name) {
+		return true
+	}
+	h := cl.Call.StaticCallee()
+	if h == nil || len(h.Blocks) == 0 || h.Signature.Recv() == nil || !wrapsSyncMap(h.Signature.Recv().Type()) {
+		return false
+	}
+	miss, _ := (core.PathQuery{Fn: h, ExitReturnOnly: true, Avoid: func(i ssa.Instruction) bool {
+		c2, ok := i.(*ssa.Call)
+		return ok && core.IsMethodOf(core.CalleeObj(c2), "sync", "Map", name)
+	}}).Exists()
+	return !miss
+}
+
 func (a *cbpAnchors) multi(m *cbpMore) *multiAnchors {
 	x := &multiAnchors{}
 	fn := m.multiConsume
@@ -119,7 +153,7 @@ func (a *cbpAnchors) multi(m *cbpMore) *multiAnchors {
 		switch {
 		case core.TypePkgPath(f.Type()) == "sync" && (core.TypeName(f.Type()) == "Mutex" || core.TypeName(f.Type()) == "RWMutex"):
 			x.lockF = f
-		case core.TypePkgPath(f.Type()) == "sync" && core.TypeName(f.Type()) == "Map":
+		case core.TypePkgPath(f.Type()) == "sync" && core.TypeName(f.Type()) == "Map", wrapsSyncMap(f.Type()):
 			x.mapF = f
 		case isInt(f.Type()):
 			x.sizeF = f
@@ -160,11 +194,10 @@ func (a *cbpAnchors) multi(m *cbpMore) *multiAnchors {
 		core.EachInstr(f, func(i ssa.Instruction) {
 			switch y := i.(type) {
 			case *ssa.Call:
-				fo := core.CalleeObj(y)
-				if core.IsMethodOf(fo, "sync", "Map", "LoadOrStore") {
+				if isSyncMapOp(y, "LoadOrStore") {
 					x.loadStore = y
 				}
-				if core.IsMethodOf(fo, "sync", "Map", "Load") {
+				if isSyncMapOp(y, "Load") {
 					x.load = y
 				}
 			case *ssa.Return:
